@@ -287,12 +287,32 @@ def json_mv(j):
 # Gallina printers
 # ---------------------------------------------------------------------------------------------
 
+def _lit(b):
+    return '[' + ';'.join('%d' % x for x in b) + ']'
+
+
+def intmap_bytes_term(out, n):
+    """the encoding of {0: None, ..., n-1: None} as header ++ arithmetic segments (a compression of the
+    literal: Coq parses ~10^4 list items per second). Falls back to the literal when the real bytes are
+    not of that shape."""
+    segs = []
+    body = b''
+    for lo, hi, pre, k in ((0, 128, b'', 1), (128, 256, b'\xcc', 1), (256, 65536, b'\xcd', 2), (65536, 2 ** 32, b'\xce', 4)):
+        a, z = lo, min(hi, n)
+        if a < z:
+            segs.append('seg %d %d %s %d [192]' % (a, z - a, _lit(pre), k))
+            body += b''.join(pre + i.to_bytes(k, 'big') + b'\xc0' for i in range(a, z))
+    if len(out) >= len(body) and out[len(out) - len(body):] == body and len(out) - len(body) <= 5:
+        return '(' + ' ++ '.join([_lit(out[:len(out) - len(body)])] + segs) + ')'
+    return bytes_term(out)
+
+
 def bytes_term(b):
-    """bytes -> Gallina term of type `bytes`; long runs as `rp x n`, the rest in hexadecimal."""
+    """bytes -> Gallina term of type `bytes`; long runs as `rp x n`, the rest as literals."""
     if len(b) == 0:
         return '[]'
     if len(b) <= 12:
-        return '[' + ';'.join('%d' % x for x in b) + ']'
+        return _lit(b)
     segs = []
     i = 0
     n = len(b)
@@ -303,14 +323,12 @@ def bytes_term(b):
             j += 1
         if j - i >= 32:
             if lit_start < i:
-                segs.append('hx "%s"' % b[lit_start:i].hex())
+                segs.append(_lit(b[lit_start:i]))
             segs.append('rp %d %d' % (b[i], j - i))
             lit_start = j
         i = j
     if lit_start < n:
-        segs.append('hx "%s"' % b[lit_start:n].hex())
-    if len(segs) == 1:
-        return '(' + segs[0] + ')'
+        segs.append(_lit(b[lit_start:n]))
     return '(' + ' ++ '.join(segs) + ')'
 
 
@@ -800,7 +818,7 @@ def run(ctx):
         for f in fails:
             direct_fail.append((f, replay))
 
-    def add_value(mv, origin, cuts=True, big=False):
+    def add_value(mv, origin, cuts=True, big=False, full_bigmap=False):
         """a value of the data model: encode (I), decode of its encoding (I), spec read-back (R), wf, cut points."""
         ctx.histogram('value_kind', kind_of(mv))
         ctx.histogram('origin', origin)
@@ -824,8 +842,19 @@ def run(ctx):
         ctx.histogram('encoded_size', sizeclass(len(out)))
         r = real.unpack(out)
         ctx.count(('round', out[:4000], len(out)), nontrivial)
-        if r == ('ok', mv, len(out)):
-            cases.add('CRound %s %s' % (value_term(mv), bytes_term(out)), info, big)
+        bigmap = big and mv[0] == 'map'
+        bt = intmap_bytes_term(out, len(mv[1])) if bigmap else bytes_term(out)
+        if bigmap and not full_bigmap:
+            # the model's dict is an association list: checking 65536 keys for duplicates in Coq is quadratic;
+            # encode (I) and the spec read-back (R) here, the model's decode on the header cuts (and in full in
+            # the thorough tier for 65535/65536)
+            ctx.histogram('bigmap_mode', 'encode+spec')
+            cases.add('CEnc %s (Some %s)' % (value_term(mv), bt), info, big)
+            cases.add('CSpec %s %s' % (bt, value_term(mv)), info, big)
+        elif r == ('ok', mv, len(out)):
+            if bigmap:
+                ctx.histogram('bigmap_mode', 'full')
+            cases.add('CRound %s %s' % (value_term(mv), bt), info, big)
         else:
             cases.add('CEnc %s %s' % (value_term(mv), opt_bytes_term(out)), info, big)
             cases.add('CDec %s %s' % (bytes_term(out), obs_term(r)), {'kind': 'decode', 'bytes': out.hex()}, big)
@@ -908,18 +937,15 @@ def run(ctx):
         add_value(('map', [(('int', z), NIL)]), 'refusal')
 
     # ---- boundary lengths -----------------------------------------------------------------------
-    big_lengths = ctx.pick([65535, 65536], [65533, 65534, 65535, 65536, 65537, 65538])
     for n in boundary_lengths(ctx):
         isbig = n > 1000
         for fam, mv in length_values(n):
-            if isbig and fam == 'map' and n not in big_lengths:
-                ctx.histogram('skipped_in_quick', 'map_len_%d' % n)
-                continue
             ctx.histogram('length_case', '%s:%d' % (fam, n))
-            out = add_value(mv, 'boundary_len', cuts=not isbig, big=isbig)
+            out = add_value(mv, 'boundary_len', cuts=not isbig, big=isbig,
+                            full_bigmap=ctx.thorough() and n in (65535, 65536))
             if out is not None and isbig:
                 # cut points of a long encoding: the header, the first payload bytes, the end
-                for p in sorted(set(list(range(0, 7)) + [len(out) - 1])):
+                for p in sorted(set(list(range(0, 7)) + ([len(out) - 1] if fam != 'map' else []))):
                     add_decode_big(ctx, real, cases, out[:p])
             # other legal headers for this length
             if not isbig:
